@@ -1,8 +1,10 @@
 import QuicModel.Drivers.DcReplay
 import QuicModel.Drivers.PacketNumber
+import QuicModel.Drivers.PnMap
+import QuicModel.Drivers.SlidingWindow
 import QuicModel.Drivers.TxPn
 import QuicModel.Drivers.VarInt
 namespace Quic.Drivers
 def all : List Component :=
-  DcReplay.components ++ PacketNumber.components ++ TxPn.components ++ VarInt.components
+  DcReplay.components ++ PacketNumber.components ++ PnMap.components ++ SlidingWindow.components ++ TxPn.components ++ VarInt.components
 end Quic.Drivers
